@@ -44,6 +44,7 @@ pub fn opts_for(gates: &Gates) -> SpellOpts {
     o.tight_trivia = gates.want("TRIVIA_AT_TIGHT_JOINTS");
     o.textkw_case = gates.want("TEXT_KEYWORD_CASE");
     o.star_comments = gates.want("COMMENT_ENDING_IN_STAR_RUN");
+    o.line_comments = gates.want("TRIVIA_LINE_COMMENT");
     o
 }
 
